@@ -24,7 +24,7 @@ func fmtComposer() *format {
 			{name: "eol", labels: eolLabels},
 			{name: "trail", labels: trailLabels},
 			{name: "indent", labels: []string{"4-spaces", "compact"}},
-			{name: "extras", labels: []string{"minimal", "source-dist-require-autoload"}},
+			{name: "extras", labels: []string{"minimal", "source-dist-require-autoload", "unrelated-fields-in-every-json-shape"}},
 			{name: "top", labels: []string{"canonical-order", "dev-first-meta-last"}},
 			{name: "dev", kind: count},
 		},
@@ -51,6 +51,9 @@ func fmtComposer() *format {
 					{"keywords", ja{"log", "name", "version"}},
 					{"time", "2023-06-21T08:46:11+00:00"},
 				}
+			}
+			if l.get("extras") == 2 {
+				e = withOdd(append(e, jkv{"authors", ja{jo{{"name", "Jordi Boggiano"}, {"email", "j.boggiano@seld.be"}}}}, jkv{"suggest", jo{{"not/a-package", "9.9.9"}}}, jkv{"default-branch", true}), i)
 			}
 			if i >= len(recs)-nDev {
 				dev = append(dev, e)
